@@ -143,6 +143,11 @@ func (t *tr) expr(e ast.Expr) string {
 		if p, ok := t.isPkg(x.X); ok {
 			return "(.const " + q(p+"."+x.Sel.Name) + ")"
 		}
+		if id, ok := x.X.(*ast.Ident); ok && id.Name == t.recv {
+			if _, shadowed := t.lookup(id.Name); !shadowed {
+				return "(.sel " + t.expr(x.X) + " " + q(fieldName(x.Sel.Name)) + ")"
+			}
+		}
 		return "(.sel " + t.expr(x.X) + " " + q(x.Sel.Name) + ")"
 	case *ast.IndexExpr:
 		return "(.idx " + t.expr(x.X) + " " + t.expr(x.Index) + ")"
@@ -258,14 +263,14 @@ func (t *tr) lvalue(e ast.Expr, define bool) string {
 	case *ast.SelectorExpr:
 		if id, ok := x.X.(*ast.Ident); ok && id.Name == t.recv && !define {
 			if _, shadowed := t.lookup(id.Name); !shadowed {
-				return "(.field " + q(x.Sel.Name) + ")"
+				return "(.field " + q(fieldName(x.Sel.Name)) + ")"
 			}
 		}
 	case *ast.IndexExpr:
 		if s, ok := x.X.(*ast.SelectorExpr); ok && !define {
 			if id, ok := s.X.(*ast.Ident); ok && id.Name == t.recv {
 				if _, shadowed := t.lookup(id.Name); !shadowed {
-					return "(.fieldIdx " + q(s.Sel.Name) + " " + t.expr(x.Index) + ")"
+					return "(.fieldIdx " + q(fieldName(s.Sel.Name)) + " " + t.expr(x.Index) + ")"
 				}
 			}
 		}
@@ -287,6 +292,81 @@ func pure(e ast.Expr) bool {
 		return pure(x.X)
 	}
 	return false
+}
+
+// fieldCanon maps the fields of DialogueRunner to the names the Lean side uses, BY TYPE: the struct has one field of each
+// type, so a field is identified by what it holds, not by what it is called (renaming a field is a neutral refactoring).
+// A type that occurs twice (a new field) keeps the written names, and the theorems see a name they do not know.
+var fieldCanon = map[string]string{}
+
+var canonByType = map[string]string{
+	"container.Stack[*statementQueue]": "statementsToRun", "*tree.Statement": "lastStatement", "<-chan error": "commandErrChan", "chan error": "commandErrChan",
+	"map[string]variable.Value": "variableSnapshot", "map[string]int": "visitedNodes", "string": "currentNode", "variable.Storer": "variableStorer",
+	"*functionStorer": "functionStorer", "*commandStorer": "commandStorer", "*tree.Dialogue": "dialogue", "markup.LineParser": "lineParser",
+}
+
+func typeString(e ast.Expr) string {
+	switch x := e.(type) {
+	case *ast.Ident:
+		return x.Name
+	case *ast.StarExpr:
+		return "*" + typeString(x.X)
+	case *ast.SelectorExpr:
+		return typeString(x.X) + "." + x.Sel.Name
+	case *ast.MapType:
+		return "map[" + typeString(x.Key) + "]" + typeString(x.Value)
+	case *ast.ArrayType:
+		return "[]" + typeString(x.Elt)
+	case *ast.ChanType:
+		switch x.Dir {
+		case ast.RECV:
+			return "<-chan " + typeString(x.Value)
+		case ast.SEND:
+			return "chan<- " + typeString(x.Value)
+		}
+		return "chan " + typeString(x.Value)
+	case *ast.IndexExpr:
+		return typeString(x.X) + "[" + typeString(x.Index) + "]"
+	}
+	return "?"
+}
+
+func collectFields(file *ast.File) {
+	for _, d := range file.Decls {
+		gd, ok := d.(*ast.GenDecl)
+		if !ok {
+			continue
+		}
+		for _, sp := range gd.Specs {
+			ts, ok := sp.(*ast.TypeSpec)
+			if !ok || ts.Name.Name != "DialogueRunner" {
+				continue
+			}
+			st, ok := ts.Type.(*ast.StructType)
+			if !ok {
+				continue
+			}
+			count := map[string]int{}
+			for _, f := range st.Fields.List {
+				count[typeString(f.Type)] += len(f.Names)
+			}
+			for _, f := range st.Fields.List {
+				ty := typeString(f.Type)
+				if canon, ok := canonByType[ty]; ok && count[ty] == 1 {
+					for _, n := range f.Names {
+						fieldCanon[n.Name] = canon
+					}
+				}
+			}
+		}
+	}
+}
+
+func fieldName(n string) string {
+	if c, ok := fieldCanon[n]; ok {
+		return c
+	}
+	return n
 }
 
 func optLoc(i int, ok bool) string {
@@ -574,6 +654,7 @@ func main() {
 		}
 		pkgs[name] = true
 	}
+	collectFields(file)
 	decls := map[string]*ast.FuncDecl{}
 	for _, d := range file.Decls {
 		if fd, ok := d.(*ast.FuncDecl); ok && fd.Recv != nil && fd.Body != nil {
